@@ -1,5 +1,5 @@
 // C09 — hardware loops execute their body exactly count+1 times.
-// A loop tree (rep / bkrep nested up to four deep, counts by immediate or register, bodies that bump
+// A loop tree (rep / bkrep nested up to four deep, counts by immediate or register - r1, r6 or the live loop counter lc -, bodies that bump
 // weighted counters, optional break, two-word last instructions) is run
 //   B: alone, one instruction at a time            -> arithmetic oracle (independent of the interpreter)
 //   A: with interrupts injected at arbitrary steps -> twin of B at every main step; the handler itself
@@ -18,7 +18,7 @@ constexpr u16 HCNT = 0x0B00;
 struct Node {
     enum Kind { Loop, Rep, Bump, LcSum, Break } kind = Bump;
     u32 count = 0;   // Loop/Rep
-    int src = 0;     // 0 immediate, 1 register r1, 2 register r6
+    int src = 0;     // 0 immediate, 1 register r1, 2 register r6, 3 register lc (the enclosing loop's live counter)
     int bump = 0;    // Bump/Rep: 0 inc a0, 1 inc a1, 2 add imm8 a0, 3 add imm16 a0, 4 add imm16 a1
     u16 w = 1;       // weight for bump kinds 2..4
     std::vector<Node> body; // Loop
@@ -58,7 +58,9 @@ struct Parser {
                 n.count = pick_count(s.arg(0), allow_big);
                 if (n.count > 20)
                     big_used = true;
-                n.src = (int)(s.arg(1) % 3);
+                n.src = (int)(s.arg(1) % 4);
+                if (n.src == 3 && depth == 0)
+                    n.src = 0; // no enclosing loop whose counter could be read
                 // a body of a big loop stays tiny
                 int save_max = max_depth;
                 if (n.count > 20)
@@ -85,6 +87,8 @@ struct Parser {
                         for (auto& c : n.body) {
                             if (c.kind == Node::LcSum)
                                 continue;
+                            if ((c.kind == Node::Loop || c.kind == Node::Rep) && c.src == 3)
+                                c.src = 0;
                             if (c.kind == Node::Break) {
                                 if (seen)
                                     continue; // a second break would run with no loop active (teakra asserts)
@@ -111,7 +115,9 @@ struct Parser {
                 n.count = pick_count(s.arg(0), depth == 0 && !big_used);
                 if (n.count > 20)
                     big_used = true;
-                n.src = (int)(s.arg(1) % 3);
+                n.src = (int)(s.arg(1) % 4);
+                if (n.src == 3 && depth == 0)
+                    n.src = 0;
                 n.bump = (int)(s.arg(2) % 3); // one-word instructions only
                 n.w = (u16)(1 + (s.arg(2) >> 3) % 255);
                 out.push_back(n);
@@ -173,13 +179,18 @@ void expect_body(const std::vector<Node>& body, u64 mult, u32 innermost_count, b
             break;
         }
         case Node::Rep: {
-            u64 times = mult * ((u64)n.count + 1);
-            s64 add = (s64)(n.bump == 2 ? bump_weight(n) : 1) * (s64)times;
-            if (n.bump == 1)
-                e.a1 += add;
-            else
-                e.a0 += add;
-            e.executed += times + mult * (n.src ? 2 : 1);
+            // a count taken from lc is the enclosing loop's live counter: count, count-1, ..., 0 over its iterations
+            u32 lo = n.src == 3 ? 0 : n.count, hi = n.src == 3 ? innermost_count : n.count;
+            u64 m = n.src == 3 ? mult / ((u64)innermost_count + 1) : mult;
+            for (u32 cnt = lo; cnt <= hi; ++cnt) {
+                u64 times = m * ((u64)cnt + 1);
+                s64 add = (s64)(n.bump == 2 ? bump_weight(n) : 1) * (s64)times;
+                if (n.bump == 1)
+                    e.a1 += add;
+                else
+                    e.a0 += add;
+                e.executed += times + m * ((n.src == 1 || n.src == 2) ? 2 : 1);
+            }
             break;
         }
         case Node::LcSum: {
@@ -198,9 +209,13 @@ void expect_body(const std::vector<Node>& body, u64 mult, u32 innermost_count, b
             for (auto& c : n.body)
                 if (c.kind == Node::Break)
                     broken = true;
-            u64 iters = broken ? 1 : (u64)n.count + 1;
-            e.executed += mult * (n.src ? 2 : 1);
-            expect_body(n.body, mult * iters, n.count, broken, e);
+            u32 lo = n.src == 3 ? 0 : n.count, hi = n.src == 3 ? innermost_count : n.count;
+            u64 m = n.src == 3 ? mult / ((u64)innermost_count + 1) : mult;
+            for (u32 cnt = lo; cnt <= hi; ++cnt) {
+                u64 iters = broken ? 1 : (u64)cnt + 1;
+                e.executed += m * ((n.src == 1 || n.src == 2) ? 2 : 1);
+                expect_body(n.body, m * iters, cnt, broken, e);
+            }
             break;
         }
         }
@@ -253,7 +268,9 @@ struct Emit {
                         bump(one);
                     break;
                 }
-                if (n.src == 0 && n.count <= 255) {
+                if (n.src == 3) {
+                    a.w(0x0D1E); // rep lc
+                } else if (n.src == 0 && n.count <= 255) {
                     a.rep_imm((u8)n.count);
                 } else if (n.src == 2) {
                     a.mov_imm_r6((u16)n.count);
@@ -285,10 +302,12 @@ struct Emit {
                 u64 big = ~0ull;
                 tmp.body(n.body, false, big);
                 u32 body_words = tmp.a.at;
-                int hdr_words = (n.src == 0 && n.count <= 255) ? 2 : 4;
+                int hdr_words = (n.src == 3 || (n.src == 0 && n.count <= 255)) ? 2 : 4;
                 u32 start = a.at + (u32)hdr_words;
                 u32 end = start + body_words - 1;
-                if (n.src == 0 && n.count <= 255) {
+                if (n.src == 3) {
+                    a.w2((u16)(0x5D1E | (((end >> 16) & 3) << 5)), (u16)end); // bkrep lc: the count is the enclosing loop's counter
+                } else if (n.src == 0 && n.count <= 255) {
                     a.bkrep_imm((u8)n.count, end);
                 } else if (n.src == 2) {
                     a.mov_imm_r6((u16)n.count);
@@ -316,6 +335,10 @@ struct Emit {
             if (n.kind == Node::Break)
                 continue;
             std::vector<Node> one{n};
+            if ((n.kind == Node::Loop || n.kind == Node::Rep) && n.src == 3) {
+                one[0].src = 0;
+                one[0].count = (u32)lc; // the counter value this iteration shows
+            }
             body(one, true, budget);
         }
     }
@@ -355,10 +378,10 @@ public:
         for (int i = 0; i < n; ++i) {
             int x = (int)r.below(12);
             if (x < 3 && open < 4) {
-                p.add("loop", {(s64)(r.chance(1, 10) ? (0x700 | r.below(4) << 11) : r.below(18)), (s64)r.below(3), (s64)(r.next() & 0xFFFF)});
+                p.add("loop", {(s64)(r.chance(1, 10) ? (0x700 | r.below(4) << 11) : r.below(18)), (s64)r.below(4), (s64)(r.next() & 0xFFFF)});
                 ++open;
             } else if (x < 5) {
-                p.add("rep", {(s64)r.below(18), (s64)r.below(3), (s64)(r.next() & 0xFFFF)});
+                p.add("rep", {(s64)r.below(18), (s64)r.below(4), (s64)(r.next() & 0xFFFF)});
             } else if (x < 8) {
                 p.add("bump", {(s64)r.below(5), (s64)(r.next() & 0xFFFF)});
             } else if (x < 9 && open > 0) {
